@@ -71,6 +71,23 @@ def writeLineNoWrap (E : Esc) (autoTrim : Bool) (cols : Int) (s : Bytes) : Bytes
   if !autoTrim then s
   else encodeUtf8 (trimRunes E cols (decodeUtf8 s))
 
+/-- the package-level state of linetrim.go: `AutoTrim`, `computedRows`, `computedCols` -/
+structure TermEnv where
+  autoTrim : Bool
+  rows : Int
+  cols : Int
+  deriving DecidableEq, Repr
+
+/-- `const defaultRows, defaultCols = 24, 80` -/
+def defaultSize : Int × Int := (24, 80)
+
+/-- linetrim.go `init()`: `tty = some (rows, cols)` when stdout is a terminal whose size can be read
+(`termstate.GetTermRowsCols()` says ok): trimming stays on at that width; otherwise (piped output,
+files, no terminal) trimming is switched OFF and the size is the default 24 x 80. -/
+def initEnv : Option (Int × Int) → TermEnv
+  | some (r, c) => { autoTrim := true, rows := r, cols := c }
+  | none => { autoTrim := false, rows := defaultSize.1, cols := defaultSize.2 }
+
 /-! ### multiterm.go -/
 
 structure Cfg where
